@@ -130,7 +130,10 @@ fn mutate(rng: &mut Rng, fen: &str) -> (String, &'static str) {
 pub fn judge_string(s: &str, origin: &str, acc: &mut Acc, run: u64, z: &ZobristHasher) -> Option<bool> {
     acc.evals += 1;
     let scen = json!({"family": "C15", "fen": s, "origin": origin});
-    let strict = Pos::from_fen(s).ok().filter(|p| p.is_legal_position());
+    // "every valid counter value": the longest possible game has 5949 moves and the halfmove
+    // clock cannot pass 150 under the 75-move rule; anything up to 10 000 / 100 000 is
+    // required to load, beyond that the loader's answer is not judged
+    let strict = Pos::from_fen(s).ok().filter(|p| p.is_legal_position() && p.halfmove <= 10_000 && p.fullmove <= 100_000);
     match loader(s) {
         Err(p) => {
             let site = if p.contains("board.rs") { "loader" } else { "elsewhere" };
@@ -214,7 +217,7 @@ pub fn run(seed: u64, runno: u64) -> (Acc, Vec<(String, bool, bool)>) {
         judge_position_cmd(&m, &mut acc, runno, &z);
         acc.nontrivial.insert(fnv(0, m.as_bytes()));
         if (runno + i) % 97 == 0 {
-            let legal = Pos::from_fen(&m).ok().map(|p| p.is_legal_position()).unwrap_or(false);
+            let legal = Pos::from_fen(&m).ok().map(|p| p.is_legal_position() && p.halfmove <= 10_000 && p.fullmove <= 100_000).unwrap_or(false);
             cli.push((m.clone(), legal, v.unwrap_or(false)));
         }
         if runno < 2 && i < 3 {
